@@ -50,7 +50,7 @@ class Family:
 
     def points(self, tier, search):
         r = random.Random(C.seed() * 977 + 5)
-        n = 1500 if tier == "quick" else 20000
+        n = 1500 if tier == "quick" else 120000
         if search:
             n *= 2
         pts = []
@@ -171,7 +171,7 @@ class Family:
         encs = [None, "utf-8", "utf-16", "latin-1"]
         dials = [{}, {"delimiter": ";"}, {"delimiter": "\t"}, {"quoting": csv.QUOTE_ALL}, {"quotechar": "'"},
                  {"lineterminator": "\n"}]
-        nfiles = 96 if tier == "quick" else 960
+        nfiles = 96 if tier == "quick" else 2880
         findings = []
         d = tempfile.mkdtemp(prefix="vf_c05_")
         stats = {"files": 0, "points": 0, "skipped_unencodable": 0}
